@@ -105,18 +105,13 @@ def find_global_peaks_rough(
         the peak points.
 
     """
-    # Find the maximum values and their indices along the height and width axes.
-    max_values, max_indices_y = torch.max(cms, dim=2, keepdim=True)
-    max_values, max_indices_x = torch.max(max_values, dim=3, keepdim=True)
-    max_indices_x = max_indices_x.squeeze(dim=(2, 3))  # (samples, channels)
-    # Find the maximum values and their indices along the height and width axes.
-    amax_values, amax_indices_x = torch.max(cms, dim=3, keepdim=True)
-    amax_values, amax_indices_y = torch.max(amax_values, dim=2, keepdim=True)
-    amax_indices_y = amax_indices_y.squeeze(dim=(2, 3))
-    peak_points = torch.cat(
-        [max_indices_x.unsqueeze(-1), amax_indices_y.unsqueeze(-1)], dim=-1
-    ).to(torch.float32)
-    max_values = max_values.squeeze(-1).squeeze(-1)
+    # Find the maximum value of each map and the (flattened) index of one cell that
+    # attains it, so that x and y always belong to the same cell (also for tied maxima).
+    samples, channels, _, width = cms.shape
+    max_values, flat_indices = torch.max(cms.reshape(samples, channels, -1), dim=2)
+    max_indices_x = flat_indices % width
+    max_indices_y = torch.div(flat_indices, width, rounding_mode="floor")
+    peak_points = torch.stack([max_indices_x, max_indices_y], dim=-1).to(torch.float32)
     # Create masks for values below the threshold.
     below_threshold_mask = max_values < threshold
     # Replace values below the threshold with NaN.
